@@ -41,6 +41,19 @@ class Token:
     __str__ = __repr__
 
 
+class _ArrayType:
+    """Stands for numpy.ndarray: array tokens (Token(..., array=True)) are its instances."""
+
+    def __deepcopy__(self, memo):
+        return self
+
+    def __repr__(self):
+        return "<ndarray type>"
+
+
+ArrayType = _ArrayType()
+
+
 class Obj:
     """An abstract object with a fixed table of attributes."""
 
@@ -1409,6 +1422,12 @@ def _mk_builtins():
         for t in tps:
             flat.extend(t if isinstance(t, tuple) else (t,))
         tps = tuple(flat)
+        if any(t is ArrayType for t in tps):
+            if isinstance(x, Token) and x._attrs.get("array"):
+                return True
+            tps = tuple(t for t in tps if t is not ArrayType)
+            if not tps:
+                return False
         if any(isinstance(t, (ClassObj, ExcClass, NamedTupleClass)) for t in tps):
             if isinstance(x, Instance) and any(isinstance(t, ClassObj) and t in x.cls.mro() for t in tps):
                 return True
